@@ -97,11 +97,15 @@ def run_pointwise(L, tables, kern, m, mask, a, b, r0, alias, off=0):
     if R is not A and R is not B:
         R.f64[:] = to_layout(layout, r0)
     a0, b0 = A.snapshot(), B.snapshot()
+    fp0 = L.fpenv()
     if how == "simple":
         L.fn(name, "v wppp")(m, R.addr, A.addr, B.addr)
     else:
         t = tables.get(ctor, m, mask if how == "dispatch" else MASK_NONE)
         L.fn(name, "v pppp")(t, R.addr, A.addr, B.addr)
+    why = L.fpenv_check(fp0)
+    if why:
+        return None, why
     for buf in (A, B, R):
         if not buf.canaries_ok():
             return None, "write outside a vector (canary)"
